@@ -20,6 +20,7 @@ package ledger
 //@ ghost committedLogs int
 //@ ghost committedFnRuns int
 //@ ghost maxLogID int
+//@ ghost lastUpsert []ledger.AccountWithDefaultMetadata
 //@ ghost lastBalances map[string]map[string]*big.Int
 //@ ghost lastRevertModified bool
 //@ ghost findSchemaCalls int
@@ -64,7 +65,7 @@ package ledger
 //@ assumed func (s Store) InsertLog(ctx context.Context, log *ledger.Log) (err error)
 //@   requires log != nil
 //@   requires log.ID != nil ==> deref(log.ID) > maxLogID
-//@   modifies writes, logs, log, maxLogID
+//@   modifies writes, lastUpsert, logs, log, maxLogID
 //@   ensures err == nil && old(log.ID) != nil ==> maxLogID == deref(old(log.ID))
 //@   ensures err == nil && old(log.ID) == nil ==> maxLogID > old(maxLogID)
 //@   ensures err != nil ==> maxLogID == old(maxLogID)
@@ -76,40 +77,41 @@ package ledger
 
 //@ assumed func (s Store) CommitTransaction(ctx context.Context, transaction *ledger.Transaction) (err error)
 //@   requires transaction != nil && wfPostings(transaction.Postings)
-//@   modifies writes, transaction
+//@   modifies writes, lastUpsert, transaction
 //@   ensures writes == store(old(writes), s, old(writes)[s] + 1)
 //@   ensures transaction.Postings == old(transaction.Postings) && transaction.Metadata == old(transaction.Metadata) && transaction.Timestamp == old(transaction.Timestamp) && transaction.Reference == old(transaction.Reference) && transaction.Template == old(transaction.Template)
 //@   ensures err == nil ==> transaction.ID != nil
 
 //@ assumed func (s Store) RevertTransaction(ctx context.Context, id uint64, at time.Time) (tx *ledger.Transaction, modified bool, err error)
-//@   modifies writes, lastRevertModified
+//@   modifies writes, lastUpsert, lastRevertModified
 //@   ensures lastRevertModified == (err == nil && modified)
 //@   ensures writes == store(old(writes), s, old(writes)[s] + 1)
 //@   ensures err == nil ==> tx != nil
 //@   ensures err == nil && modified ==> tx.RevertedAt != nil && tx.ID != nil && amountsNonNil(tx.Postings) && wfPostings(tx.Postings)
 
 //@ assumed func (s Store) UpdateTransactionMetadata(ctx context.Context, transactionID uint64, m metadata.Metadata, at time.Time) (tx *ledger.Transaction, modified bool, err error)
-//@   modifies writes
+//@   modifies writes, lastUpsert
 //@   ensures writes == store(old(writes), s, old(writes)[s] + 1)
 
 //@ assumed func (s Store) DeleteTransactionMetadata(ctx context.Context, transactionID uint64, key string, at time.Time) (tx *ledger.Transaction, modified bool, err error)
-//@   modifies writes
+//@   modifies writes, lastUpsert
 //@   ensures writes == store(old(writes), s, old(writes)[s] + 1)
 
 //@ assumed func (s Store) UpdateAccountsMetadata(ctx context.Context, m map[string]metadata.Metadata, at time.Time) (err error)
-//@   modifies writes
+//@   modifies writes, lastUpsert
 //@   ensures writes == store(old(writes), s, old(writes)[s] + 1)
 
 //@ assumed func (s Store) UpsertAccounts(ctx context.Context, accounts ...ledger.AccountWithDefaultMetadata) (err error)
-//@   modifies writes
+//@   modifies writes, lastUpsert
 //@   ensures writes == store(old(writes), s, old(writes)[s] + 1)
+//@   ensures lastUpsert == accounts
 
 //@ assumed func (s Store) DeleteAccountMetadata(ctx context.Context, address string, key string) (err error)
-//@   modifies writes
+//@   modifies writes, lastUpsert
 //@   ensures writes == store(old(writes), s, old(writes)[s] + 1)
 
 //@ assumed func (s Store) InsertSchema(ctx context.Context, data *ledger.Schema) (err error)
-//@   modifies writes
+//@   modifies writes, lastUpsert
 //@   ensures writes == store(old(writes), s, old(writes)[s] + 1)
 
 //@ assumed func (s Store) FindSchema(ctx context.Context, version string) (r *ledger.Schema, err error)
@@ -154,7 +156,7 @@ package ledger
 //@ func (lp *logProcessor[INPUT, OUTPUT]) runLog(ctx context.Context, store Store, parameters Parameters[INPUT], fn func(ctx context.Context, sqlTX Store, schema *ledger.Schema, parameters Parameters[INPUT]) (*OUTPUT, error)) (log *ledger.Log, output *OUTPUT, err error)
 //@   property C07 C08 C13 C29 C31
 //@   requires !closed[store]
-//@   modifies writes, logs, maxLogID, fnRuns, findSchemaCalls, findSchemaNotFound, findSchemaFailed, latestCalls, latestNil, latestFailed, needsSchema, validateFailed, validateCalls
+//@   modifies writes, lastUpsert, logs, maxLogID, fnRuns, findSchemaCalls, findSchemaNotFound, findSchemaFailed, latestCalls, latestNil, latestFailed, needsSchema, validateFailed, validateCalls
 //@   ensures parameters.SchemaVersion != "" ==> findSchemaCalls == old(findSchemaCalls) + 1
 //@   ensures parameters.SchemaVersion != "" && findSchemaFailed ==> err != nil && fnRuns == old(fnRuns) && logs == old(logs)
 //@   ensures parameters.SchemaVersion != "" && findSchemaNotFound && !latestFailed ==> isErr(err, ErrSchemaNotFound)
@@ -175,7 +177,7 @@ package ledger
 //@   ensures err == nil ==> log.IdempotencyKey == parameters.IdempotencyKey && log.SchemaVersion == parameters.SchemaVersion
 //@   ensures err != nil ==> log == nil && output == nil
 //@   fnparam fn(c, sqlTX, schema, params) (out, ferr):
-//@     modifies writes, fnRuns
+//@     modifies writes, lastUpsert, fnRuns
 //@     ensures fnRuns == store(old(fnRuns), sqlTX, old(fnRuns)[sqlTX] + 1)
 //@     ensures forall h Store :: {writes[h]} {old(writes)[h]} h != sqlTX ==> writes[h] == old(writes)[h]
 //@     ensures ferr == nil ==> out != nil
@@ -183,7 +185,7 @@ package ledger
 //@ func (lp *logProcessor[INPUT, OUTPUT]) runTx(ctx context.Context, store Store, parameters Parameters[INPUT], fn func(ctx context.Context, sqlTX Store, schema *ledger.Schema, parameters Parameters[INPUT]) (*OUTPUT, error)) (log *ledger.Log, output *OUTPUT, err error)
 //@   property C07 C08 C13 C31
 //@   requires allocated[store] && !closed[store]
-//@   modifies allocated, open, closed, nBegin, nClosed, nCommit, committedLogs, committedFnRuns, writes, logs, maxLogID, fnRuns, findSchemaCalls, findSchemaNotFound, findSchemaFailed, latestCalls, latestNil, latestFailed, needsSchema, validateFailed, validateCalls
+//@   modifies allocated, open, closed, nBegin, nClosed, nCommit, committedLogs, committedFnRuns, writes, lastUpsert, logs, maxLogID, fnRuns, findSchemaCalls, findSchemaNotFound, findSchemaFailed, latestCalls, latestNil, latestFailed, needsSchema, validateFailed, validateCalls
 //@   ensures nBegin - old(nBegin) == nClosed - old(nClosed)
 //@   ensures forall h Store :: {writes[h]} {old(writes)[h]} old(allocated)[h] ==> writes[h] == old(writes)[h]
 //@   ensures forall h Store :: {closed[h]} {old(closed)[h]} old(allocated)[h] ==> closed[h] == old(closed)[h]
@@ -193,7 +195,7 @@ package ledger
 //@   ensures err == nil && !parameters.DryRun ==> nCommit == old(nCommit) + 1 && committedLogs == old(committedLogs) + 1 && committedFnRuns == old(committedFnRuns) + 1
 //@   ensures err == nil ==> log != nil && output != nil
 //@   fnparam fn(c, sqlTX, schema, params) (out, ferr):
-//@     modifies writes, fnRuns
+//@     modifies writes, lastUpsert, fnRuns
 //@     ensures fnRuns == store(old(fnRuns), sqlTX, old(fnRuns)[sqlTX] + 1)
 //@     ensures forall h Store :: {writes[h]} {old(writes)[h]} h != sqlTX ==> writes[h] == old(writes)[h]
 //@     ensures ferr == nil ==> out != nil
@@ -201,7 +203,7 @@ package ledger
 //@ func (lp *logProcessor[INPUT, OUTPUT]) forgeLogRetry(ctx context.Context, store Store, parameters Parameters[INPUT], fn func(ctx context.Context, store Store, schema *ledger.Schema, parameters Parameters[INPUT]) (*OUTPUT, error)) (log *ledger.Log, output *OUTPUT, hit bool, err error)
 //@   property C07 C08 C13 C31
 //@   requires allocated[store] && !closed[store]
-//@   modifies allocated, open, closed, nBegin, nClosed, nCommit, committedLogs, committedFnRuns, writes, logs, maxLogID, fnRuns, findSchemaCalls, findSchemaNotFound, findSchemaFailed, latestCalls, latestNil, latestFailed, needsSchema, validateFailed, validateCalls
+//@   modifies allocated, open, closed, nBegin, nClosed, nCommit, committedLogs, committedFnRuns, writes, lastUpsert, logs, maxLogID, fnRuns, findSchemaCalls, findSchemaNotFound, findSchemaFailed, latestCalls, latestNil, latestFailed, needsSchema, validateFailed, validateCalls
 //@   ensures nBegin - old(nBegin) == nClosed - old(nClosed)
 //@   ensures forall h Store :: {writes[h]} {old(writes)[h]} old(allocated)[h] ==> writes[h] == old(writes)[h]
 //@   ensures forall h Store :: {closed[h]} {old(closed)[h]} old(allocated)[h] ==> closed[h] == old(closed)[h]
@@ -221,7 +223,7 @@ package ledger
 //@     invariant forall h Store :: {closed[h]} {old(closed)[h]} old(allocated)[h] ==> closed[h] == old(closed)[h]
 //@     invariant forall h Store :: {allocated[h]} old(allocated)[h] ==> allocated[h]
 //@   fnparam fn(c, sqlTX, schema, params) (out, ferr):
-//@     modifies writes, fnRuns
+//@     modifies writes, lastUpsert, fnRuns
 //@     ensures fnRuns == store(old(fnRuns), sqlTX, old(fnRuns)[sqlTX] + 1)
 //@     ensures forall h Store :: {writes[h]} {old(writes)[h]} h != sqlTX ==> writes[h] == old(writes)[h]
 //@     ensures ferr == nil ==> out != nil
@@ -229,7 +231,7 @@ package ledger
 //@ func (lp *logProcessor[INPUT, OUTPUT]) forgeLog(ctx context.Context, store Store, parameters Parameters[INPUT], fn func(ctx context.Context, store Store, schema *ledger.Schema, parameters Parameters[INPUT]) (*OUTPUT, error)) (log *ledger.Log, output *OUTPUT, hit bool, err error)
 //@   property C07 C08 C13 C31
 //@   requires allocated[store] && !closed[store]
-//@   modifies allocated, open, closed, nBegin, nClosed, nCommit, committedLogs, committedFnRuns, writes, logs, maxLogID, fnRuns, findSchemaCalls, findSchemaNotFound, findSchemaFailed, latestCalls, latestNil, latestFailed, needsSchema, validateFailed, validateCalls
+//@   modifies allocated, open, closed, nBegin, nClosed, nCommit, committedLogs, committedFnRuns, writes, lastUpsert, logs, maxLogID, fnRuns, findSchemaCalls, findSchemaNotFound, findSchemaFailed, latestCalls, latestNil, latestFailed, needsSchema, validateFailed, validateCalls
 //@   ensures nBegin - old(nBegin) == nClosed - old(nClosed)
 //@   ensures forall h Store :: {writes[h]} {old(writes)[h]} old(allocated)[h] ==> writes[h] == old(writes)[h]
 //@   ensures forall h Store :: {closed[h]} {old(closed)[h]} old(allocated)[h] ==> closed[h] == old(closed)[h]
@@ -240,7 +242,7 @@ package ledger
 //@   ensures err != nil ==> !hit
 //@   ensures hit ==> log != nil && log.IdempotencyKey == parameters.IdempotencyKey && (log.IdempotencyHash == "" || log.IdempotencyHash == idemHash(boxany(parameters.Input)))
 //@   fnparam fn(c, sqlTX, schema, params) (out, ferr):
-//@     modifies writes, fnRuns
+//@     modifies writes, lastUpsert, fnRuns
 //@     ensures fnRuns == store(old(fnRuns), sqlTX, old(fnRuns)[sqlTX] + 1)
 //@     ensures forall h Store :: {writes[h]} {old(writes)[h]} h != sqlTX ==> writes[h] == old(writes)[h]
 //@     ensures ferr == nil ==> out != nil
@@ -250,7 +252,7 @@ package ledger
 //@ func (ctrl *DefaultController) upsertTransactionAccounts(ctx context.Context, store Store, schema *ledger.Schema, tx *ledger.Transaction, accountMetadata ledger.AccountMetadata) (err error)
 //@   property C07 C08
 //@   requires tx != nil
-//@   modifies writes
+//@   modifies writes, lastUpsert
 //@   ensures forall h Store :: {writes[h]} {old(writes)[h]} h != store ==> writes[h] == old(writes)[h]
 
 //@ ghost parseCalls int
@@ -261,7 +263,7 @@ package ledger
 
 //@ func (ctrl *DefaultController) createTransaction(ctx context.Context, store Store, schema *ledger.Schema, parameters Parameters[CreateTransaction]) (r *ledger.CreatedTransaction, err error)
 //@   property C07 C08 C28 C29
-//@   modifies writes, parseCalls, lastParsed
+//@   modifies writes, lastUpsert, parseCalls, lastParsed
 //@   ensures forall h Store :: {writes[h]} {old(writes)[h]} h != store ==> writes[h] == old(writes)[h]
 //@   ensures err == nil ==> r != nil
 //@   ensures schema != nil && len(schema.Transactions) > 0 && parameters.Input.Template == "" && ctrl.schemaEnforcementMode == "strict" ==> isErr(err, ErrSchemaValidationError) && writes == old(writes)
@@ -278,7 +280,7 @@ package ledger
 
 //@ func (ctrl *DefaultController) revertTransaction(ctx context.Context, store Store, _schema *ledger.Schema, parameters Parameters[RevertTransaction]) (r *ledger.RevertedTransaction, err error)
 //@   property C06 C07 C08 C15 C28
-//@   modifies writes, lastBalances, lastRevertModified
+//@   modifies writes, lastUpsert, lastBalances, lastRevertModified
 //@   ensures !lastRevertModified ==> err != nil && writes[store] == old(writes)[store] + 1
 //@   ensures err == nil ==> has(r.RevertTransaction.Metadata, revertsKey()) && r.RevertTransaction.Metadata[revertsKey()] == str(deref(r.RevertedTransaction.ID))
 //@   ensures forall h Store :: {writes[h]} {old(writes)[h]} h != store ==> writes[h] == old(writes)[h]
@@ -310,25 +312,29 @@ package ledger
 
 //@ func (ctrl *DefaultController) saveTransactionMetadata(ctx context.Context, store Store, _schema *ledger.Schema, parameters Parameters[SaveTransactionMetadata]) (r *ledger.SavedMetadata, err error)
 //@   property C07 C08
-//@   modifies writes
+//@   modifies writes, lastUpsert
 //@   ensures forall h Store :: {writes[h]} {old(writes)[h]} h != store ==> writes[h] == old(writes)[h]
 //@   ensures err == nil ==> r != nil
 
 //@ func (ctrl *DefaultController) saveAccountMetadata(ctx context.Context, store Store, schema *ledger.Schema, parameters Parameters[SaveAccountMetadata]) (r *ledger.SavedMetadata, err error)
-//@   property C07 C08
-//@   modifies writes
+//@   property C07 C08 C29 C17
+//@   ensures len(lastUpsert) == 1 && lastUpsert[0].Account != nil && lastUpsert[0].Account.Address == parameters.Input.Address
+//@   ensures lastUpsert[0].Account.Metadata == parameters.Input.Metadata
+//@   ensures schema == nil ==> lastUpsert[0].DefaultMetadata == nil
+//@   note chart defaults travel in DefaultMetadata (applied by the store only when the account row is first inserted), never merged into the metadata being saved (C29: defaults never overwrite existing values)
+//@   modifies writes, lastUpsert
 //@   ensures forall h Store :: {writes[h]} {old(writes)[h]} h != store ==> writes[h] == old(writes)[h]
 //@   ensures err == nil ==> r != nil
 
 //@ func (ctrl *DefaultController) deleteTransactionMetadata(ctx context.Context, store Store, _schema *ledger.Schema, parameters Parameters[DeleteTransactionMetadata]) (r *ledger.DeletedMetadata, err error)
 //@   property C07 C08
-//@   modifies writes
+//@   modifies writes, lastUpsert
 //@   ensures forall h Store :: {writes[h]} {old(writes)[h]} h != store ==> writes[h] == old(writes)[h]
 //@   ensures err == nil ==> r != nil
 
 //@ func (ctrl *DefaultController) deleteAccountMetadata(ctx context.Context, store Store, schema *ledger.Schema, parameters Parameters[DeleteAccountMetadata]) (r *ledger.DeletedMetadata, err error)
 //@   property C07 C08
-//@   modifies writes
+//@   modifies writes, lastUpsert
 //@   ensures forall h Store :: {writes[h]} {old(writes)[h]} h != store ==> writes[h] == old(writes)[h]
 //@   ensures err == nil ==> r != nil
 
@@ -510,7 +516,7 @@ package ledger
 //@ func (ctrl *DefaultController) importLog(ctx context.Context, store Store, log ledger.Log) (err error)
 //@   property C38 C07 C28
 //@   requires log.ID != nil && deref(log.ID) > maxLogID
-//@   modifies writes, logs, maxLogID, lastRevertModified, findSchemaCalls, findSchemaNotFound, findSchemaFailed
+//@   modifies writes, lastUpsert, logs, maxLogID, lastRevertModified, findSchemaCalls, findSchemaNotFound, findSchemaFailed
 //@   ensures maxLogID >= old(maxLogID)
 //@   ensures err == nil ==> maxLogID == deref(log.ID)
 //@   ensures forall h Store :: {writes[h]} {old(writes)[h]} h != store ==> writes[h] == old(writes)[h]
@@ -524,7 +530,7 @@ package ledger
 //@ func (ctrl *DefaultController) Import(ctx context.Context, stream chan ledger.Log) (err error)
 //@   property C08 C38
 //@   requires allocated[ctrl.store] && !closed[ctrl.store]
-//@   modifies allocated, open, closed, nBegin, nClosed, nCommit, committedLogs, committedFnRuns, writes, logs, maxLogID, lastRevertModified, findSchemaCalls, findSchemaNotFound, findSchemaFailed
+//@   modifies allocated, open, closed, nBegin, nClosed, nCommit, committedLogs, committedFnRuns, writes, lastUpsert, logs, maxLogID, lastRevertModified, findSchemaCalls, findSchemaNotFound, findSchemaFailed
 //@   ensures maxLogID >= old(maxLogID)
 //@   loop 1:
 //@     invariant allocated[ctrl.store] && !closed[ctrl.store]
